@@ -286,6 +286,14 @@ var rErrRefs = &Rule{
 					if f := sx.Callee(x); f != nil && f.Name() == "WithSecondaryError" && p.InModule(f) {
 						loopCalls = append(loopCalls, x)
 					}
+					// the collection may live in a helper that receives the variadic slice and returns the errors in it
+					if f := sx.Callee(x); f != nil && p.InModule(f) && fn.Signature.Variadic() {
+						for i, a := range x.Call.Args {
+							if a == ssa.Value(fn.Params[len(fn.Params)-1]) && i < len(f.Params) && collectsErrorsOf(f, i) {
+								collects = true
+							}
+						}
+					}
 				}
 			})
 			if !collects {
@@ -339,6 +347,34 @@ func elemOfVariadic(v ssa.Value, fn *ssa.Function) (ssa.Value, bool) {
 		return pp, true
 	}
 	return nil, false
+}
+
+// collectsErrorsOf: fn returns a []error and asserts elements of its slice parameter pi to error (comma-ok).
+func collectsErrorsOf(fn *ssa.Function, pi int) bool {
+	if fn.Blocks == nil || pi >= len(fn.Params) {
+		return false
+	}
+	res := fn.Signature.Results()
+	if res.Len() != 1 {
+		return false
+	}
+	sl, ok := types.Unalias(res.At(0).Type()).Underlying().(*types.Slice)
+	if !ok || !sx.IsErrorType(sl.Elem()) {
+		return false
+	}
+	found := false
+	sx.EachInstr(fn, func(in ssa.Instruction) {
+		ta, ok := in.(*ssa.TypeAssert)
+		if !ok || !ta.CommaOk || !sx.IsErrorType(ta.AssertedType) {
+			return
+		}
+		if ld, ok := ta.X.(*ssa.UnOp); ok {
+			if ia, ok := ld.X.(*ssa.IndexAddr); ok && ia.X == ssa.Value(fn.Params[pi]) {
+				found = true
+			}
+		}
+	})
+	return found
 }
 
 var _ = fmt.Sprintf
